@@ -71,7 +71,7 @@ type HookValue struct {
 	Suffix  string
 	Field   interface{} // abstract dump (see Dump) of the field value the hook was given
 	AType   attr.Type   // attribute type the hook was given
-	Cur     attr.Value    // current attribute value the hook was given (nil interface when absent)
+	Cur     attr.Value  // current attribute value the hook was given (nil interface when absent)
 	HasCur  bool
 	FromTF  bool
 	Null    bool
